@@ -269,9 +269,6 @@ impl Src {
             pos: 0,
         }
     }
-    fn plain(data: Bytes) -> Self {
-        Src::new(data, usize::MAX, None, false)
-    }
     fn gate(s: &mut SrcState, kind: ROpKind, pos: usize, req: usize) -> Gate {
         let idx = s.ncalls;
         s.ncalls += 1;
@@ -406,7 +403,6 @@ struct Scn {
     /// reader batch size and BufReader capacity
     rd_batch: usize,
     rd_cap: usize,
-    big: bool,
 }
 
 #[derive(Default, Clone)]
@@ -503,8 +499,10 @@ trait Fmt {
     const CSV: bool = false;
     /// a pull reader over Read exists
     const HAS_READER: bool = true;
-    /// may generate batches of several hundred rows
-    const BIG_OK: bool = false;
+    /// probability (x/256) of a scenario with batches of several hundred rows
+    const BIG_CHANCE: u32 = 0;
+    /// rows per batch of such a scenario: .0 + below(.1)
+    const BIG_ROWS: (usize, usize) = (100, 400);
     /// the sink interface has short writes / Interrupted (false for the all-or-error async sink)
     const BYTE_SINK: bool = true;
     fn menu() -> Vec<LType>;
@@ -585,9 +583,20 @@ fn sanitise(col: &mut [LValue]) {
     }
 }
 
+/// true with probability n/256; a zero byte decodes to false (the simple choice)
+fn rare(t: &mut Tape, n: u32) -> bool {
+    (t.u8() as u32) + n >= 256
+}
+
 fn gen_scn<F: Fmt>(c: &mut Case) -> Scn {
     let menu = F::menu();
     let t = &mut c.tape;
+    // options first (fixed tape positions: big, o[..], reader settings), then the schema, then the data
+    let big = F::BIG_CHANCE > 0 && rare(t, F::BIG_CHANCE);
+    let mut o = [0usize; 8];
+    F::gen_opts(t, &mut o, big);
+    let rd_batch = if big { 1024 } else { *t.pick(&[1024usize, 2, 1, 3]) };
+    let rd_cap = *t.pick(&[8192usize, 16, 1, 64, 5]);
     let ncols = 1 + t.below(4);
     let strcol = if t.chance(200) { t.below(ncols) } else { usize::MAX };
     let mut fields = vec![];
@@ -597,9 +606,8 @@ fn gen_scn<F: Fmt>(c: &mut Case) -> Scn {
         let nullable = !t.chance(64) || F::CSV;
         fields.push(LField { name: format!("c{}", i), ty, nullable });
     }
-    let big = F::BIG_OK && t.chance(28);
     let nb = 1 + t.below(3);
-    let sizes: Vec<usize> = (0..nb).map(|_| if big { 150 + t.below(900) } else { t.below(6) }).collect();
+    let sizes: Vec<usize> = (0..nb).map(|_| if big { F::BIG_ROWS.0 + t.below(F::BIG_ROWS.1) } else { t.below(6) }).collect();
     let nrows: usize = sizes.iter().sum();
     let vcfg = ValCfg { nan: false, max_str: 12, max_list: 3, ..ValCfg::default() };
     let mut model = gen_lbatch(t, &fields, nrows, &vcfg);
@@ -614,11 +622,7 @@ fn gen_scn<F: Fmt>(c: &mut Case) -> Scn {
         batches.push(whole.slice(off, *n));
         off += n;
     }
-    let mut o = [0usize; 8];
-    F::gen_opts(t, &mut o, big);
-    let rd_batch = if big { 1024 } else { *t.pick(&[1024usize, 2, 1, 3]) };
-    let rd_cap = *t.pick(&[8192usize, 16, 1, 64, 5]);
-    let scn = Scn { fields, schema, batches, nrows, o, rd_batch, rd_cap, big };
+    let scn = Scn { fields, schema, batches, nrows, o, rd_batch, rd_cap };
     c.describe(json!({
         "format": F::NAME,
         "schema": scn.fields.iter().map(|f| format!("{}:{}{}", f.name, f.ty.arrow(), if f.nullable { "?" } else { "" })).collect::<Vec<_>>(),
@@ -1204,19 +1208,19 @@ mod ipc {
     use arrow_ipc::writer::{FileWriter, IpcWriteOptions, StreamWriter};
     use arrow_ipc::{CompressionType, MetadataVersion};
 
-    /// o[0]: 0 default, 1 alignment 64, 2 lz4, 3 zstd, 4 legacy V4 framing; o[1]: sink wrapped in BufWriter;
+    /// o[0]: 0 default, 1 alignment 64, 2 legacy V4 framing, 3 zstd (lz4_flex frames cost ~1 ms of page faults per
+    /// message, which would dominate the enumeration; the codec does not change the I/O path); o[1]: sink wrapped in BufWriter;
     /// o[2]: 0 finish()+into_inner(), 1 into_inner() only, 2 RecordBatchWriter::close(), 3 finish() only;
     /// o[3]: flush() after each batch; o[4]: reader wrapped in BufReader
     pub fn gen_opts(t: &mut Tape, o: &mut [usize; 8], _big: bool) {
-        o[0] = t.below(5);
-        if let Ok(v) = std::env::var("C18_DIAG_IPC") { o[0] = v.parse().unwrap(); }
+        o[0] = t.below(4);
         o[1] = t.below(2);
         o[2] = t.below(4);
-        o[3] = t.chance(64) as usize;
+        o[3] = rare(t, 64) as usize;
         o[4] = t.below(2);
     }
     pub fn opt_classes(scn: &Scn) -> Vec<String> {
-        let mut v = vec![format!("opt:{}", ["default", "align64", "lz4", "zstd", "legacy-v4"][scn.o[0]]), format!("end:{}", ["finish+into_inner", "into_inner", "close", "finish"][scn.o[2]])];
+        let mut v = vec![format!("opt:{}", ["default", "align64", "legacy-v4", "zstd"][scn.o[0]]), format!("end:{}", ["finish+into_inner", "into_inner", "close", "finish"][scn.o[2]])];
         if scn.o[1] == 1 {
             v.push("bufwriter".into());
         }
@@ -1233,9 +1237,8 @@ mod ipc {
     fn options(scn: &Scn) -> IpcWriteOptions {
         match scn.o[0] {
             1 => IpcWriteOptions::try_new(64, false, MetadataVersion::V5).unwrap(),
-            2 => IpcWriteOptions::default().try_with_compression(Some(CompressionType::LZ4_FRAME)).unwrap(),
+            2 => IpcWriteOptions::try_new(8, true, MetadataVersion::V4).unwrap(),
             3 => IpcWriteOptions::default().try_with_compression(Some(CompressionType::ZSTD)).unwrap(),
-            4 => IpcWriteOptions::try_new(8, true, MetadataVersion::V4).unwrap(),
             _ => IpcWriteOptions::default(),
         }
     }
@@ -1430,6 +1433,10 @@ mod pq {
             .set_dictionary_enabled(scn.o[1] == 1)
             .set_writer_version(if scn.o[4] == 1 { WriterVersion::PARQUET_2_0 } else { WriterVersion::PARQUET_1_0 })
             .set_bloom_filter_enabled(scn.o[7] == 1);
+        if scn.o[7] == 1 {
+            // default ndv (1M) makes every column chunk allocate and write a ~1 MiB filter
+            b = b.set_bloom_filter_max_ndv(40);
+        }
         if scn.o[2] > 0 {
             b = b.set_max_row_group_row_count(Some(scn.o[2]));
         }
@@ -1452,7 +1459,7 @@ mod pq {
     impl Fmt for Parquet {
         const NAME: &'static str = "parquet";
         const FOOTER: bool = true;
-        const BIG_OK: bool = true;
+        const BIG_CHANCE: u32 = 20;
         fn menu() -> Vec<LType> {
             let mut m = common_menu();
             m.extend([dict_utf8(), list_i32()]);
@@ -1461,16 +1468,16 @@ mod pq {
         fn gen_opts(t: &mut Tape, o: &mut [usize; 8], _big: bool) {
             o[0] = t.below(3);
             o[1] = 1 - t.below(2);
-            o[2] = if t.chance(96) { 1 + t.below(4) } else { 0 };
+            o[2] = if rare(t, 96) { 1 + t.below(4) } else { 0 };
             if _big && o[2] > 0 {
                 // keep the number of row groups (and so of source calls) moderate
                 o[2] = 150 + 100 * o[2];
             }
-            o[3] = t.chance(64) as usize;
+            o[3] = rare(t, 64) as usize;
             o[4] = t.below(2);
             o[5] = t.below(4);
-            o[6] = t.chance(96) as usize;
-            o[7] = t.chance(48) as usize;
+            o[6] = rare(t, 96) as usize;
+            o[7] = rare(t, 48) as usize;
         }
         fn opt_classes(scn: &Scn) -> Vec<String> {
             let mut v = vec![format!("opt:{}", ["uncompressed", "snappy", "zstd"][scn.o[0]]), format!("end:{}", ["close", "into_inner", "finish", "rbw-close"][scn.o[5]])];
@@ -1635,13 +1642,19 @@ mod pq2 {
     impl Fmt for ParquetAsync {
         const NAME: &'static str = "parquet_async";
         const FOOTER: bool = true;
-        const BIG_OK: bool = true;
+        const BIG_CHANCE: u32 = 150;
+        const BIG_ROWS: (usize, usize) = (400, 900);
         const BYTE_SINK: bool = false;
         fn menu() -> Vec<LType> {
             Parquet::menu()
         }
-        fn gen_opts(t: &mut Tape, o: &mut [usize; 8], _big: bool) {
-            Parquet::gen_opts(t, o, _big)
+        fn gen_opts(t: &mut Tape, o: &mut [usize; 8], big: bool) {
+            Parquet::gen_opts(t, o, big);
+            if big {
+                // the async writer hands over whatever its 8 KiB BufWriter has released at each row-group flush:
+                // flush after every batch so that a large file reaches the sink in several calls
+                o[6] = 1;
+            }
         }
         fn opt_classes(scn: &Scn) -> Vec<String> {
             Parquet::opt_classes(scn)
@@ -1849,7 +1862,7 @@ mod csvf {
     impl Fmt for Csv {
         const NAME: &'static str = "csv";
         const CSV: bool = true;
-        const BIG_OK: bool = true;
+        const BIG_CHANCE: u32 = 20;
         fn menu() -> Vec<LType> {
             common_menu()
         }
@@ -1955,7 +1968,7 @@ mod jsonf {
     pub struct JsonLines;
     impl Fmt for JsonLines {
         const NAME: &'static str = "json_lines";
-        const BIG_OK: bool = true;
+        const BIG_CHANCE: u32 = 20;
         fn menu() -> Vec<LType> {
             menu()
         }
@@ -2025,7 +2038,7 @@ mod jsonf {
     impl Fmt for JsonArr {
         const NAME: &'static str = "json_array";
         const HAS_READER: bool = false;
-        const BIG_OK: bool = true;
+        const BIG_CHANCE: u32 = 20;
         fn menu() -> Vec<LType> {
             menu()
         }
@@ -2051,7 +2064,25 @@ use jsonf::{JsonArr, JsonLines};
 use pq::Parquet;
 use pq2::{ParquetAsync, ParquetRows};
 
+#[cfg(all(target_os = "linux", target_env = "gnu"))]
+fn tune_allocator() {
+    // Every faulted run builds a fresh writer/reader whose buffers (hundreds of KiB) glibc would hand back to the
+    // kernel and fault in again each time; keep freed memory in the heap instead. Performance only.
+    unsafe extern "C" {
+        fn mallopt(param: i32, value: i32) -> i32;
+    }
+    const M_TRIM_THRESHOLD: i32 = -1;
+    const M_MMAP_THRESHOLD: i32 = -3;
+    unsafe {
+        mallopt(M_TRIM_THRESHOLD, 1 << 30);
+        mallopt(M_MMAP_THRESHOLD, 32 << 20);
+    }
+}
+#[cfg(not(all(target_os = "linux", target_env = "gnu")))]
+fn tune_allocator() {}
+
 fn main() {
+    tune_allocator();
     Check::new(
         "C18",
         "fault_enumeration",
@@ -2067,35 +2098,35 @@ fn main() {
     .assume("Interrupted on flush()/seek() may be reported as Err (std does not retry those); Interrupted and short counts on write() must be transparent (write_all semantics)")
     .assume("CSV truncation is judged by the carve-out of DESIGN §3 C18 S: rows of complete records exact, the cut record may yield one more row whose last field is shortened")
     .assume("Avro OCF embeds a random sync marker: outputs are compared after replacing the marker; the prefix clause is not applied to it")
-    .sub(Sub::new("w_ipc_file", 160, 4000, writer_faults::<IpcFile>).tape(192, 3000))
-    .sub(Sub::new("w_ipc_stream", 160, 4000, writer_faults::<IpcStream>).tape(192, 3000))
-    .sub(Sub::new("w_parquet", 128, 2500, writer_faults::<Parquet>).tape(192, 6000))
-    .sub(Sub::new("w_avro_ocf", 160, 4000, writer_faults::<AvroOcf>).tape(192, 3000))
-    .sub(Sub::new("w_avro_soe", 160, 4000, writer_faults::<AvroSoe>).tape(192, 3000))
-    .sub(Sub::new("w_csv", 160, 4000, writer_faults::<Csv>).tape(192, 6000))
-    .sub(Sub::new("w_json_lines", 160, 4000, writer_faults::<JsonLines>).tape(192, 6000))
-    .sub(Sub::new("w_json_array", 160, 4000, writer_faults::<JsonArr>).tape(192, 6000))
-    .sub(Sub::new("w_parquet_async", 128, 2500, writer_faults::<ParquetAsync>).tape(192, 6000))
-    .sub(Sub::new("a_ipc_file", 64, 1500, after_error::<IpcFile>).tape(192, 3000))
-    .sub(Sub::new("a_ipc_stream", 64, 1500, after_error::<IpcStream>).tape(192, 3000))
-    .sub(Sub::new("a_parquet", 64, 1000, after_error::<Parquet>).tape(192, 6000))
-    .sub(Sub::new("a_avro_ocf", 64, 1500, after_error::<AvroOcf>).tape(192, 3000))
-    .sub(Sub::new("a_csv", 64, 1500, after_error::<Csv>).tape(192, 6000))
-    .sub(Sub::new("a_json_lines", 64, 1500, after_error::<JsonLines>).tape(192, 6000))
-    .sub(Sub::new("r_ipc_file", 160, 4000, reader_faults::<IpcFile>).tape(192, 3000))
-    .sub(Sub::new("r_ipc_stream", 160, 4000, reader_faults::<IpcStream>).tape(192, 3000))
-    .sub(Sub::new("r_parquet", 128, 2500, reader_faults::<Parquet>).tape(192, 6000))
-    .sub(Sub::new("r_parquet_rowapi", 128, 2500, reader_faults::<ParquetRows>).tape(192, 6000))
-    .sub(Sub::new("r_avro_ocf", 160, 4000, reader_faults::<AvroOcf>).tape(192, 3000))
-    .sub(Sub::new("r_csv", 160, 4000, reader_faults::<Csv>).tape(192, 6000))
-    .sub(Sub::new("r_json_lines", 160, 4000, reader_faults::<JsonLines>).tape(192, 6000))
-    .sub(Sub::new("t_ipc_file", 128, 3000, truncation::<IpcFile>).tape(192, 3000))
-    .sub(Sub::new("t_ipc_stream", 128, 3000, truncation::<IpcStream>).tape(192, 3000))
-    .sub(Sub::new("t_parquet", 128, 2500, truncation::<Parquet>).tape(192, 6000))
-    .sub(Sub::new("t_parquet_rowapi", 128, 2500, truncation::<ParquetRows>).tape(192, 6000))
-    .sub(Sub::new("t_avro_ocf", 128, 3000, truncation::<AvroOcf>).tape(192, 3000))
-    .sub(Sub::new("t_avro_soe", 128, 3000, truncation::<AvroSoe>).tape(192, 3000))
-    .sub(Sub::new("t_csv", 128, 3000, truncation::<Csv>).tape(192, 6000))
-    .sub(Sub::new("t_json_lines", 128, 3000, truncation::<JsonLines>).tape(192, 6000))
+    .sub(Sub::new("w_ipc_file", 160, 1500, writer_faults::<IpcFile>).tape(192, 3000).require(&["bufwriter", "col:dict", "fault-on-flush", "explicit-flush", "short:ok", "interrupted:ok", "err-once:err"]))
+    .sub(Sub::new("w_ipc_stream", 160, 1500, writer_faults::<IpcStream>).tape(192, 3000).require(&["bufwriter", "col:dict", "fault-on-flush", "short:ok", "err-perm:err"]))
+    .sub(Sub::new("w_parquet", 128, 700, writer_faults::<Parquet>).tape(192, 6000).require(&["several-row-groups", "dictionary-pages", "fault-on-flush", "short:ok", "big"]))
+    .sub(Sub::new("w_avro_ocf", 160, 1500, writer_faults::<AvroOcf>).tape(192, 3000).require(&["fault-on-flush", "short:ok", "opt:deflate"]))
+    .sub(Sub::new("w_avro_soe", 160, 1500, writer_faults::<AvroSoe>).tape(192, 3000))
+    .sub(Sub::new("w_csv", 160, 1500, writer_faults::<Csv>).tape(192, 6000).require(&["fault-on-flush", "short:ok", "header:1"]))
+    .sub(Sub::new("w_json_lines", 160, 1500, writer_faults::<JsonLines>).tape(192, 6000))
+    .sub(Sub::new("w_json_array", 160, 1500, writer_faults::<JsonArr>).tape(192, 6000))
+    .sub(Sub::new("w_parquet_async", 128, 1000, writer_faults::<ParquetAsync>).tape(192, 6000).require(&["big", "err-once:err"]))
+    .sub(Sub::new("a_ipc_file", 64, 600, after_error::<IpcFile>).tape(192, 3000))
+    .sub(Sub::new("a_ipc_stream", 64, 600, after_error::<IpcStream>).tape(192, 3000))
+    .sub(Sub::new("a_parquet", 64, 400, after_error::<Parquet>).tape(192, 6000))
+    .sub(Sub::new("a_avro_ocf", 64, 600, after_error::<AvroOcf>).tape(192, 3000))
+    .sub(Sub::new("a_csv", 64, 600, after_error::<Csv>).tape(192, 6000))
+    .sub(Sub::new("a_json_lines", 64, 600, after_error::<JsonLines>).tape(192, 6000))
+    .sub(Sub::new("r_ipc_file", 160, 1500, reader_faults::<IpcFile>).tape(192, 3000).require(&["fault-on-seek", "err-once:err", "interrupted:all-rows"]))
+    .sub(Sub::new("r_ipc_stream", 160, 1500, reader_faults::<IpcStream>).tape(192, 3000).require(&["eof0:prefix+clean-end", "err-once:err"]))
+    .sub(Sub::new("r_parquet", 128, 700, reader_faults::<Parquet>).tape(192, 6000).require(&["fault-on-get_bytes", "fault-on-get_read", "several-row-groups"]))
+    .sub(Sub::new("r_parquet_rowapi", 128, 700, reader_faults::<ParquetRows>).tape(192, 6000).require(&["fault-on-get_bytes", "fault-on-get_read"]))
+    .sub(Sub::new("r_avro_ocf", 160, 1500, reader_faults::<AvroOcf>).tape(192, 3000).require(&["eof0:prefix+clean-end", "err-once:err"]))
+    .sub(Sub::new("r_csv", 160, 1500, reader_faults::<Csv>).tape(192, 6000).require(&["err-once:err", "eof0:err"]))
+    .sub(Sub::new("r_json_lines", 160, 1500, reader_faults::<JsonLines>).tape(192, 6000).require(&["err-once:err", "eof0:err"]))
+    .sub(Sub::new("t_ipc_file", 128, 1000, truncation::<IpcFile>).tape(192, 3000).require(&["cut:err"]))
+    .sub(Sub::new("t_ipc_stream", 128, 1000, truncation::<IpcStream>).tape(192, 3000).require(&["cut:rows+err", "cut:prefix+clean", "push-cut:rows+err"]))
+    .sub(Sub::new("t_parquet", 128, 1000, truncation::<Parquet>).tape(192, 6000).require(&["cut:err", "several-row-groups"]))
+    .sub(Sub::new("t_parquet_rowapi", 128, 1000, truncation::<ParquetRows>).tape(192, 6000))
+    .sub(Sub::new("t_avro_ocf", 128, 1000, truncation::<AvroOcf>).tape(192, 3000).require(&["cut:err", "cut:prefix+clean"]))
+    .sub(Sub::new("t_avro_soe", 128, 1000, truncation::<AvroSoe>).tape(192, 3000).require(&["push-cut:rows+err"]))
+    .sub(Sub::new("t_csv", 128, 1000, truncation::<Csv>).tape(192, 6000).require(&["cut:err", "cut:prefix+clean"]))
+    .sub(Sub::new("t_json_lines", 128, 1000, truncation::<JsonLines>).tape(192, 6000).require(&["cut:rows+err", "push-cut:err"]))
     .run()
 }
